@@ -42,15 +42,18 @@ var versions = map[string][][]ruleDef{
 		{{ID: "r1", Paths: []string{"/a"}}, {ID: "r2", Paths: []string{"/a/:x"}, Methods: []string{"GET"}}},
 		{{ID: "r1", Paths: []string{"/a", "/shared"}}},
 		{{ID: "r2", Paths: []string{"/a/:x"}}, {ID: "r3", Paths: []string{"/a/b", "/**"}}},
+		// (the first rule claims the shared expression, a later one is unproblematic: refused as a whole, if at all)
+		{{ID: "r1", Paths: []string{"/shared"}}, {ID: "r4", Paths: []string{"/a/late"}}, {ID: "r5", Paths: []string{"/a"}}},
 	},
 	"s2": {
 		{{ID: "r1", Paths: []string{"/b"}}, {ID: "r2", Paths: []string{"/b/*rest"}}},
 		{{ID: "r1", Paths: []string{"/b", "/shared"}}},
 		{{ID: "r9", Paths: []string{"/b/c"}}, {ID: "r2", Paths: []string{"/b/*rest"}, Methods: []string{"POST"}}},
+		{{ID: "r1", Paths: []string{"/shared"}}, {ID: "r4", Paths: []string{"/b/late"}}, {ID: "r5", Paths: []string{"/b"}}},
 	},
 }
 
-var probes = []string{"/a", "/a/b", "/a/zz", "/b", "/b/c", "/b/c/d", "/shared", "/nothing/here"}
+var probes = []string{"/a", "/a/b", "/a/zz", "/b", "/b/c", "/b/c/d", "/shared", "/nothing/here", "/a/late", "/b/late"}
 
 func toConfigs(defs []ruleDef) []rulecfg.Rule {
 	out := make([]rulecfg.Rule, len(defs))
@@ -225,7 +228,7 @@ func genProgram(t *rapid.T) program {
 			if rapid.IntRange(0, 3).Draw(t, src+".del") == 0 {
 				p.Updaters[src] = append(p.Updaters[src], opInput{Kind: "del", Src: src})
 			} else {
-				p.Updaters[src] = append(p.Updaters[src], opInput{Kind: "set", Src: src, Version: rapid.IntRange(0, 2).Draw(t, src+".version"),
+				p.Updaters[src] = append(p.Updaters[src], opInput{Kind: "set", Src: src, Version: rapid.IntRange(0, 3).Draw(t, src+".version"),
 					AsUpdate: rapid.IntRange(0, 3).Draw(t, src+".reportedAsUpdate") == 0})
 			}
 		}
@@ -477,7 +480,7 @@ func TestParallelHistoriesAreLinearizable(t *testing.T) {
 				if next(4) == 0 {
 					p.Updaters[src] = append(p.Updaters[src], opInput{Kind: "del", Src: src})
 				} else {
-					p.Updaters[src] = append(p.Updaters[src], opInput{Kind: "set", Src: src, Version: next(3), AsUpdate: next(4) == 0})
+					p.Updaters[src] = append(p.Updaters[src], opInput{Kind: "set", Src: src, Version: next(4), AsUpdate: next(4) == 0})
 				}
 			}
 		}
